@@ -53,7 +53,7 @@ FieldWr(M, p, fd, depth) ==
               << W(W(b, "op", "Set"), "x", x1), W(W(b, "op", "Set"), "x", x2), W(W(b, "op", "Set"), "x", ZeroOf(fd.kind)),
                  W(b, "op", "Clear"), W(b, "op", "Mutable") >>
          [] fd.card \in {"one", "oneof"} ->
-              << W(b, "op", "Mutable"), W(b, "op", "SetNew"), W(b, "op", "Clear") >>
+              << W(b, "op", "Mutable"), W(b, "op", "SetNew"), W(b, "op", "Clear"), W(b, "op", "SetInvalid") >>
               \o (IF depth > 0 THEN WrOps(fd.msg, Append(p, StepF(fd.num)), depth - 1) ELSE <<>>)
          [] fd.card = "rep" /\ fd.kind # "message" ->
               << W(W(b, "op", "LAppend"), "x", x1), W(W(b, "op", "LAppend"), "x", x2),
@@ -61,11 +61,12 @@ FieldWr(M, p, fd, depth) ==
                  W(W(W(b, "op", "LSet"), "x", x2), "i", 0), W(W(W(b, "op", "LSet"), "x", x1), "i", 1),
                  W(W(b, "op", "LTruncate"), "i", 0), W(W(b, "op", "LTruncate"), "i", 1),
                  W(W(W(b, "op", "LTruncate"), "i", 1), "via", "get"),
-                 W(W(b, "op", "LRetained"), "x", x2),
+                 W(W(b, "op", "LRetained"), "x", x2), W(b, "op", "ViewClear"), W(b, "op", "SetInvalid"),
                  W(b, "op", "Clear"), W(b, "op", "Mutable"), W(b, "op", "SetNew") >>
          [] fd.card = "rep" ->
               << W(b, "op", "LAppendMutable"), W(b, "op", "LAppendNew"), W(W(b, "op", "LAppendMutable"), "via", "get"),
-                 W(W(b, "op", "LTruncate"), "i", 1), W(W(b, "op", "LTruncate"), "i", 0), W(b, "op", "LRetained"), W(b, "op", "Clear") >>
+                 W(W(b, "op", "LTruncate"), "i", 1), W(W(b, "op", "LTruncate"), "i", 0), W(b, "op", "LRetained"), W(b, "op", "Clear"),
+                 W(b, "op", "ViewClear"), W(b, "op", "SetInvalid"), W(W(b, "op", "LElemKept"), "u", UnkBytes(fd.msg)) >>
               \o (IF depth > 0 THEN WrOps(fd.msg, Append(p, StepI(fd.num, 0)), depth - 1) ELSE <<>>)
          [] fd.card = "map" /\ fd.vk # "message" ->
               LET k1 == Pool(fd.kk)[1]
@@ -76,12 +77,14 @@ FieldWr(M, p, fd, depth) ==
                     W(W(W(b, "op", "MSet"), "k", k1), "x", ZeroOf(fd.vk)),
                     W(W(W(W(b, "op", "MSet"), "k", k1), "x", v1), "via", "get"),
                     W(W(b, "op", "MClear"), "k", k1), W(W(b, "op", "MClear"), "k", k2),
-                    W(W(W(b, "op", "MRetained"), "k", k2), "x", v1), W(b, "op", "Clear"), W(b, "op", "SetNew") >>
+                    W(W(W(b, "op", "MRetained"), "k", k2), "x", v1), W(b, "op", "Clear"), W(b, "op", "SetNew"),
+                    W(b, "op", "ViewClear"), W(b, "op", "SetInvalid") >>
          [] fd.card = "map" ->
               LET k1 == Pool(fd.kk)[1]
                   k2 == Pool(fd.kk)[2]
               IN << W(W(b, "op", "MMutable"), "k", k1), W(W(b, "op", "MSetNew"), "k", k2), W(W(b, "op", "MClear"), "k", k1),
-                    W(W(W(b, "op", "MMutable"), "k", k1), "via", "get"), W(W(b, "op", "MRetained"), "k", k2), W(b, "op", "Clear") >>
+                    W(W(W(b, "op", "MMutable"), "k", k1), "via", "get"), W(W(b, "op", "MRetained"), "k", k2), W(b, "op", "Clear"),
+                    W(b, "op", "ViewClear"), W(b, "op", "SetInvalid") >>
                  \o (IF depth > 0 THEN WrOps(fd.vmsg, Append(p, StepK(fd.num, k1)), depth - 1) ELSE <<>>)
 
 WrOps(M, p, depth) ==
